@@ -14,6 +14,12 @@ Theorem C16_never_mix_never_stale_source : forall rs, Forall2 run_ok rs (runs fs
 Proof. intros rs. apply runs_never_mix, inv0. Qed.
 Print Assumptions C16_never_mix_never_stale_source.
 
+(* 1w. The same when some of the interpreters run with bytecode writing switched off (-B, PYTHONDONTWRITEBYTECODE): they
+       still read the cache files earlier runs left, and what they load is transformed iff hooked, from the current source. *)
+Theorem C16_never_mix_never_stale_source_nowrite : forall rs, Forall2 run_ok (map fst rs) (runsw fs0 rs).
+Proof. intros rs. apply runsw_never_mix, inv0. Qed.
+Print Assumptions C16_never_mix_never_stale_source_nowrite.
+
 (* 2. It is exactly the current configuration applied to the current source whenever all hooked runs
       agree on the options the AST transformation depends on ... *)
 Theorem C16_exact_single_akey : forall k rs,
